@@ -23,6 +23,7 @@ type extraFacts struct {
 	CritSections      [][]string `json:"critSections"`      // func, mutex, #Lock, #Unlock (deferred ones included), "deferred" | "explicit"
 	FieldRegions      [][]string `json:"fieldRegions"`      // type, field, func, number of distinct critical sections of func in which the field is used
 	LazyGuards        [][]string `json:"lazyGuards"`        // func, condition of the leading `if`, "return" | "do"
+	PackageVars       [][]string `json:"packageVars"`       // file, name, "map" | "slice": package-level variables of reference type (shared mutable state)
 }
 
 func funcName(fd *ast.FuncDecl) string {
@@ -196,6 +197,54 @@ func collectExtra(fset *token.FileSet, files []*ast.File, info *types.Info, lock
 		fname := fset.Position(f.Pos()).Filename
 		if i := strings.LastIndex(fname, "/"); i >= 0 {
 			fname = fname[i+1:]
+		}
+		// package-level variables of map / slice type: process-wide mutable state every request can reach
+		for _, d := range f.Decls {
+			gd, ok := d.(*ast.GenDecl)
+			if !ok || gd.Tok != token.VAR {
+				continue
+			}
+			for _, sp := range gd.Specs {
+				vs, ok := sp.(*ast.ValueSpec)
+				if !ok {
+					continue
+				}
+				for i, n := range vs.Names {
+					kind := ""
+					classify := func(t types.Type) {
+						if t == nil {
+							return
+						}
+						switch t.Underlying().(type) {
+						case *types.Map:
+							kind = "map"
+						case *types.Slice:
+							kind = "slice"
+						}
+					}
+					if vs.Type != nil {
+						if tv, ok := info.Types[vs.Type]; ok {
+							classify(tv.Type)
+						}
+						switch t := vs.Type.(type) {
+						case *ast.MapType:
+							kind = "map"
+						case *ast.ArrayType:
+							if t.Len == nil {
+								kind = "slice"
+							}
+						}
+					}
+					if kind == "" && i < len(vs.Values) {
+						if tv, ok := info.Types[vs.Values[i]]; ok {
+							classify(tv.Type)
+						}
+					}
+					if kind != "" && n.Name != "_" {
+						X.PackageVars = append(X.PackageVars, []string{fname, n.Name, kind})
+					}
+				}
+			}
 		}
 		// struct fields of shared types that are mutexes / atomics
 		for _, d := range f.Decls {
@@ -453,6 +502,7 @@ func collectExtra(fset *token.FileSet, files []*ast.File, info *types.Info, lock
 	less(X.CritSections)
 	less(X.FieldRegions)
 	less(X.LazyGuards)
+	less(X.PackageVars)
 	return X
 }
 
@@ -514,5 +564,7 @@ func renderExtra(X *extraFacts) string {
 		"fieldRegions", "String × String × String × Nat", X.FieldRegions, map[int]bool{3: true})
 	tuplesN("leading `if` of every function that writes a field of a shared type and starts with one: (function, condition, \"return\" if the branch ends in a return, else \"do\")",
 		"lazyGuards", "String × String × String", X.LazyGuards, nil)
+	tuplesN("package-level variables of map or slice type in package graphql: (file, name, map|slice) — process-wide mutable state",
+		"packageVars", "String × String × String", X.PackageVars, nil)
 	return b.String()
 }
